@@ -12,6 +12,7 @@ CONSTANTS GenLen,      \* number of steps of a generated behaviour
           GenPreds,    \* predicates used by force_update
           ObsEvery,    \* TRUE: behaviours of exactly GenLen steps, observables after every step;
                        \* FALSE: every prefix is printed as its own behaviour with its final observables
+          SuffixId,    \* fixed continuation after the GenLen free steps (0 = none), see Suffix
           SampleMod,   \* a behaviour is printed iff its hash mod SampleMod < SampleKeep
           SampleKeep,
           Seed
@@ -25,10 +26,17 @@ Step == IF ObsEvery THEN [act |-> act', ret |-> ret', snap |-> Snapshot']
 
 WithObs(h) == [i \in DOMAIN h |-> [act |-> h[i].act, ret |-> h[i].ret, obs |-> ObsOf(h[i].snap)]]
 
-On(a) == a \in GenActs
+\* fixed continuations: 1 = three writes, each after waiting out the rotation debounce, which overflow the active blob
+\* (C13: rotation must still happen after any history)
+Suffix == IF SuffixId = 1 THEN <<"age", "write", "age", "write", "age", "write">> ELSE <<>>
+TotalLen == GenLen + Len(Suffix)
+
+On(a) == IF Len(hist) < GenLen THEN a \in GenActs ELSE a = Suffix[Len(hist) - GenLen + 1]
+InSuffix == Len(hist) >= GenLen
 
 GData ==
-  \/ On("write")  /\ \E k \in Keys, ts \in 1..MaxTs, m \in Metas, sz \in Sizes : Write(k, ts, m, sz)
+  \/ On("write")  /\ ~InSuffix /\ \E k \in Keys, ts \in 1..MaxTs, m \in Metas, sz \in Sizes : Write(k, ts, m, sz)
+  \/ On("write")  /\ InSuffix /\ Write(CHOOSE k \in Keys : TRUE, MaxTs, 0, CHOOSE s \in Sizes : TRUE)
   \/ On("delete") /\ \E k \in Keys, ts \in 1..MaxTs, m \in Metas, o \in BOOLEAN : Delete(k, ts, m, o)
 
 GLife ==
@@ -51,8 +59,7 @@ DmgNames == <<"keep", "lose", "stale">>
 GRestart ==
   On("restart") /\ \E r \in GenRestarts :
      LET g == r % 2 = 1  lz == (r \div 2) % 2 = 1  d == DmgNames[(r \div 4) + 1] IN
-     /\ Restart(g, lz, [b \in Ids |-> d])
-     /\ act' = Act("restart", 0, 0, 0, r % 4, d)
+     RestartL(g, lz, [b \in Ids |-> d], d)
 
 \* order-sensitive hash of the action sequence, for sampling inside TLC
 ACode(x) == Len(x.a) * 53 + x.k * 13 + x.ts * 7 + x.m * 5 + x.f * 3 + Len(x.s)
@@ -60,12 +67,12 @@ ACode(x) == Len(x.a) * 53 + x.k * 13 + x.ts * 7 + x.m * 5 + x.f * 3 + Len(x.s)
 \* A behaviour ends with the single step Finish, so that in simulation mode (where TLC
 \* evaluates the invariant on every successor before choosing one) exactly the chosen
 \* behaviour is printed.
-GStep == /\ Len(hist) < GenLen /\ ~done
+GStep == /\ Len(hist) < TotalLen /\ ~done
          /\ (GData \/ GLife \/ GRestart)
          /\ hist' = Append(hist, Step)
          /\ hh' = (hh * 31 + ACode(act')) % 1000003
          /\ UNCHANGED done
-Finish == /\ Len(hist) = GenLen /\ ~done
+Finish == /\ Len(hist) = TotalLen /\ ~done
           /\ done' = TRUE
           /\ UNCHANGED <<vars, hist, hh>>
 GNext == GStep \/ Finish
